@@ -4,7 +4,7 @@
 S=$1; shift; D=/verif/seeded/$S
 P=${@:-${S%%_*}}
 T=$(mktemp -d /tmp/sswseed.XXXXXX)
-cp -r /repo/src /repo/include $T/ && ln -s /repo/model $T/model && mkdir -p $T/_build && cp /repo/_build/config.h $T/_build/ 2>/dev/null
+cp -r /repo/src /repo/include $T/ && ln -s /repo/model $T/model && ln -s /repo/tests $T/tests && mkdir -p $T/_build && cp /repo/_build/config.h $T/_build/ 2>/dev/null
 PATCH=$D/patch.diff; [ -f $D/patch_current_tree.diff ] && PATCH=$D/patch_current_tree.diff
 ( cd $T && (git apply $PATCH 2>/dev/null || git apply -C1 $PATCH 2>/dev/null || patch -p1 -s -F3 --no-backup-if-mismatch < $PATCH) ) || { echo "$S: patch does not apply"; rm -rf $T; exit 2; }
 for pid in $P; do
